@@ -62,5 +62,7 @@ fn main() {
         "C10" => c10,
         "C11" => c11,
         "C12" => c12,
+        "C16" => c16,
+        "C17" => c17,
     );
 }
